@@ -223,10 +223,13 @@ class UnitRun:
             msg = m.get("message", "")
             if msg.startswith("aborting due to"):
                 continue
-            spans = m.get("spans", [])
+            all_spans = m.get("spans", [])
+            # spans inside vstd (e.g. the postcondition of an external trait specification) carry
+            # line numbers of another file: keep only spans of the assembled unit for mapping
+            spans = [s for s in all_spans if os.path.basename(s.get("file_name", "")) == os.path.basename(self.path)]
             prim = [s for s in spans if s.get("is_primary")] or spans
             if not spans:
-                self.compile_errors.append(msg)
+                self.compile_errors.append(msg + " " + m.get("rendered", "")[:300])
                 continue
             pl = prim[0]["line_start"]
             rec = {"message": msg, "line": pl, "rendered": m.get("rendered", "")[:1500], "spans": [(s["line_start"], s.get("label")) for s in spans]}
